@@ -1,5 +1,7 @@
 #pragma once
 #include "refs_cmp.hpp"
+#include "refs_conv.hpp"
+#include "refs_red.hpp"
 #include "refs_fp.hpp"
 #include "refs_int.hpp"
 
@@ -10,5 +12,7 @@ namespace xv
         register_int_specs();
         register_fp_specs();
         register_cmp_specs();
+        register_conv_specs();
+        register_red_specs();
     }
 }
